@@ -6,15 +6,28 @@
    does not predict the interleaving; the extracted oracle validates the recorded trace
    (canon() therefore compares only the deterministic 'unc' lines).
 """
-import random
+import os, random
 
 PID = 'C04'
+# the extended search of the generic runner (after a broken proof/correspondence without an oracle hit) is capped for C04: the
+# quick tier stays below two minutes also when something broke (was 220 s); one round of the 'search' population takes 10-15 s
+os.environ.setdefault('VERIF_SEARCH_S', '40')
 HEADER = []
 T0 = 2000000000
 TIMEOUT = 3000   # real-thread cases queue for one of <par> machine-wide slots
-RULE = ('exec: the REAL Checkable::ExecuteCheck under the virtual clock with a command that keeps its result: control, stored result '
-        'stamped in the future, passive result racing the start, stale results, passive in flight + random mixes; after ANY result '
-        'processing the next ExecuteCheck must start the command; run-quiet: max=1, slot holder paused/deleted mid-check, silence '
+RULE = ('tl: quiet timelines, 1-3 hosts that only run when forced or explicitly enabled, synchronous or asynchronous native check '
+        'command that runs exactly until the script opens its gate; steps force / enable / disable / close / open period / pause / '
+        'resume / reschedule / hold / release applied to the real objects while the real scheduler and pool run; after every step the '
+        'harness waits for a stable state (read from idle/pending/m_PendingChecks/force_next_check) and prints executions started/'
+        'finished, clears of force_next_check, the flag and the set of every checkable; the extracted step function decides the '
+        'expected lines (14 templates: second request during a forced check, the same for an asynchronous command, check slower '
+        'than its interval, resume while pending, one slot, ... + random ones under two rules that keep the outcome independent of '
+        'timing); run: 0/30/60 % of the checkables have an ASYNCHRONOUS command (result delivered by another thread like '
+        'PluginCheckTask, slot counted like PluginCheckTask), up to a quarter of the slots run longer than their interval or until '
+        'a timeout of three intervals; exec: the REAL Checkable::ExecuteCheck under the virtual clock with a command that keeps its result: control, stored result '
+        'stamped in the future, passive result racing the start, stale results, passive in flight, command_endpoint (connected / '
+        'not connected) + random mixes; after ANY result processing the next ExecuteCheck must start the command, before it must not; '
+        'run-quiet: max=1, slot holder paused/deleted mid-check, silence '
         'afterwards (lost wake-up); run: 10 % of the checkables deliver every 3rd result stamped older than the stored one; pcr: the REAL Checkable::ProcessCheckResult (local, origin null) under the virtual clock from the never-checked state: all result '
         'histories of length <= 3 over {OK,WARNING,CRITICAL} x {host,service} x max_check_attempts {1,2,3} (covers every pre state type x '
         'has-result x OK/non-OK x max 1/>1 combination) + random longer ones incl. passive results; next_check diffed against the '
@@ -22,21 +35,26 @@ RULE = ('exec: the REAL Checkable::ExecuteCheck under the virtual clock with a c
         'result, offset < 2^31); run: n in 5..300 checkables (hosts and services), max_concurrent_checks in {1,2,8,64}, intervals '
         '50-400 ms, fast/slow/throwing/state-flipping commands, storms of pause/resume(+quick flip)/reschedule/force/enable/disable/'
         'period/create/delete at 100-400 ops/s, a third of the checkables calm (only reschedule/force) so that liveness windows span '
-        'the run. non-trivial = run case with >= 50 check executions and >= 100 snapshots, or an unc case; distinct = script text')
+        'the run. non-trivial = run case with >= 50 check executions and >= 100 snapshots, a complete timeline, or a deterministic case; distinct = script text')
 TRUSTED = ['model: coq/Sched/SchModel.v (critical sections of CheckThreadProc, ExecuteCheckHelper, ObjectHandler, NextCheckChangedHandler, '
-           'ExecuteCheck single-flight guard, pending-check counter), coq/Sched/SchNext.v (UpdateNextCheck over Q)',
+           'ExecuteCheck single-flight guard with synchronous / asynchronous / remote commands, pending-check counter), coq/Sched/SchNext.v (UpdateNextCheck over Q)',
            'real-thread runs SAMPLE interleavings; the theorems cover all interleavings of the model at lock granularity, the tie shows '
            'that every sampled execution satisfies what the theorems establish (trace validation, no step-by-step replay: no hook H3 needed)',
            'harness reads CheckerComponent::m_IdleCheckables/m_PendingCheckables under m_Mutex (-fno-access-control) and records check '
-           'command start/end, next_check updates (signal OnNextCheckChanged) with clock brackets taken on the same thread',
+           'command start/end, ExecuteCheck entries (OnLastCheckStartedChanged), clears of force_next_check (OnForceNextCheckChanged), '
+           'next_check updates (OnNextCheckChanged) with clock brackets taken on the same thread; the order of the records is the order in which one mutex was taken',
+           'asynchronous commands are a native stand-in for PluginCheckTask (count the slot, return, deliver the result from another thread); real plugin processes are not spawned',
+           'timelines: the canonical schedule that drives the extracted step function between two script steps and the stability test are hand-written OCaml / C++',
            'timing checks (N/W/F/Q records) are evaluated by hand-written OCaml glue in ocaml/ops_sch.ml, not by extracted code',
-           'hook H1 (virtual clock) for the unc family only']
+           'source facts coq/Facts/Facts_c04.v (site of SetForceNextCheck(false), sites of m_CheckRunning = false in ExecuteCheck) are recognised by regular expressions in tools/facts_c04.py',
+           'hook H1 (virtual clock) for the unc/pcr/exec families only']
 ASSUMPTIONS = ['binary64 rounding of fmod/division in UpdateNextCheck is outside the model: the Q result is strict, a one-ulp tie adj = interval is not excluded',
-               'check commands process their result synchronously inside ExecuteCheck (native function); plugin processes that outlive ExecuteCheckHelper are not modelled',
-               'passive check results arriving while an active check runs clear m_CheckRunning (checkable-check.cpp:105); outside the quantifier, not generated',
-               'liveness is proved as enabledness only (C04_progress_partial); at run time only its timed reading is a violation: the SAME head of the next-check index stays due with a free slot for > 3 s + 10 x max observed oversleep (decided from snapshots taken under m_Mutex); waiting for a slot, for earlier-due checkables, for a pool thread or for the CPU is never flagged; gaps between starts (W records) are statistics only',
-               'a forced request is flagged only if it was never served although snapshots show the checkable in idle behind a head whose key is beyond anything its own key can be (request + Imax + dmax + 1 s + 10 x oversleep); at most <par> real-thread cases run at a time machine-wide (flock slots in /var/tmp/verif_c04_slots)',
-               'all checkables are in the local zone (same_zone = true) in the real-thread runs']
+               'passive check results arriving while an active check runs clear m_CheckRunning (checkable-check.cpp:105); outside the quantifier, not generated in the real-thread runs',
+               'a force request that arrives while an asynchronous check of the same checkable is in flight is consumed by a dispatch that returns at the m_CheckRunning guard: no further execution (the exception stated in C04_forced); the oracle accepts exactly that: an ExecuteCheck entered after the request began that returned at the guard while an execution was in flight',
+               'liveness is proved as enabledness only (C04_progress_partial); at run time only its timed reading is a violation: the SAME head of the next-check index stays due with a free slot for > 2 s + 10 x max observed oversleep (decided from snapshots taken under m_Mutex); waiting for a slot, for earlier-due checkables, for a pool thread or for the CPU is never flagged; gaps between starts (W records) are statistics only',
+               'a forced request is flagged if its clear of force_next_check is not followed by an ExecuteCheck entry of the checkable (order of records; NOT evaluated for checkables deleted during the run: the entry is observed through OnLastCheckStartedChanged, which the generated Notify suppresses for inactive objects), or if it was never served although snapshots show the checkable in idle behind a head whose key is beyond anything its own key can be (request + Imax + dmax + 0.1 s + 10 x oversleep); at most <par> real-thread cases run at a time machine-wide (flock slots in /var/tmp/verif_c04_slots)',
+               'timelines: a state counts as stable when the condition holds unchanged for 150 ms (longer when the harness observes stalls); a scheduler thread preempted for longer than that inside the two statements between the insertion into pending and the clear of force_next_check would be misread',
+               'all checkables are in the local zone (same_zone = true) in the real-thread runs; command_endpoint is exercised by direct ExecuteCheck calls only']
 
 
 def unc_case(rnd, k):
@@ -105,6 +123,15 @@ def exec_cases(rnd, nrand):
                 cases.append(mk(kind, mx, [('race', st), ('fin', 0), ('exec',), ('fin', st), ('exec',), ('fin', 0)], 'exec-passive-racing-start'))
                 cases.append(mk(kind, mx, [('exec',), ('fin', 0), ('exec',), ('stale', st, 1), ('exec',), ('fin', 0), ('exec',)], 'exec-stale-result'))
                 cases.append(mk(kind, mx, [('exec',), ('passive', st), ('fin', 0), ('exec',), ('fin', 0)], 'exec-passive-in-flight'))
+    # command_endpoint branch of ExecuteCheck (endpoint connected / not connected): the flag is released on return, every
+    # ExecuteCheck gets through to the remote branch, also back to back and with passive results in between
+    for kind in ('host', 'svc'):
+        for conn in (0, 1):
+            for mx in (1, 3):
+                ops = [('exec',), ('exec',), ('passive', rnd.choice((0, 2))), ('exec',), ('fin', 0), ('exec',)]
+                c = mk(kind, mx, ops, 'exec-remote')
+                c['lines'][0] += ' remote=1 conn=%d' % conn
+                cases.append(c)
     for _ in range(nrand):
         ops = []
         for _ in range(rnd.randint(3, 14)):
@@ -119,6 +146,73 @@ def exec_cases(rnd, nrand):
     return cases
 
 
+TL_TEMPLATES = [
+    # (kinds, gates, max, steps)   steps: (op, c)
+    ('s', 'c', 2, [('force', 0), ('release', 0)]),                                           # one forced check of a disabled checkable
+    ('s', 'c', 2, [('force', 0), ('force', 0), ('release', 0)]),                             # second request while the forced check runs: 2 executions
+    ('s', 'c', 2, [('close', 0), ('force', 0), ('force', 0), ('release', 0)]),               # the same outside the check period
+    ('a', 'c', 2, [('force', 0), ('force', 0), ('release', 0)]),                             # asynchronous: the second request finds the check in flight (the exception)
+    ('a', 'c', 2, [('enable', 0), ('disable', 0), ('release', 0)]),                          # asynchronous check slower than its interval: still one execution
+    ('a', 'c', 4, [('enable', 0), ('force', 0), ('resched', 0), ('disable', 0), ('release', 0), ('force', 0)]),
+    ('s', 'c', 2, [('force', 0), ('pause', 0), ('resume', 0), ('force', 0), ('release', 0)]),  # resume while pending, forced duplicate dispatch hits the guard
+    ('s', 'c', 2, [('force', 0), ('force', 0), ('pause', 0), ('release', 0), ('resume', 0)]),  # request survives pause/resume
+    ('s', 'o', 2, [('pause', 0), ('force', 0), ('resume', 0)]),                              # forced while paused, served on resume
+    ('ss', 'cc', 1, [('force', 0), ('force', 1), ('release', 0), ('release', 1)]),           # one slot: the second forced check starts when the slot is free
+    ('as', 'cc', 1, [('force', 0), ('force', 1), ('force', 1), ('release', 0), ('release', 1)]),
+    ('sa', 'co', 2, [('enable', 0), ('force', 1), ('close', 0), ('force', 0), ('release', 0)]),
+    ('s', 'c', 2, [('enable', 0), ('close', 0), ('force', 0), ('open', 0), ('disable', 0), ('release', 0)]),
+    ('a', 'c', 2, [('force', 0), ('pause', 0), ('force', 0), ('resume', 0), ('release', 0), ('force', 0)]),
+]
+
+
+def tl_script(kinds, gates, maxc, iv, steps, fam):
+    lines = ['sch_tl_new n=%d max=%d iv=%d kinds=%s gates=%s' % (len(kinds), maxc, iv, kinds, gates)]
+    lines += ['sch_tl_do op=%s c=%d' % (op, c) for (op, c) in steps]
+    lines.append('sch_tl_end')
+    return {'lines': lines, 'tags': {'family': fam}}
+
+
+def tl_random(rnd):
+    """a random quiet timeline.  Two rules keep the outcome independent of timing: no checkable is ever left free-running
+    (enabled, in its period, unpaused, gate open - it would execute every interval), and with fewer slots than checkables
+    nothing is enabled (waiting forced checks are served in the order of the requests, regular ones in the order of keys that
+    depend on the phase of the real clock)."""
+    n = rnd.choice((1, 1, 2, 2, 3))
+    maxc = rnd.choice((1, 2, 2, 4))
+    kinds = ''.join(rnd.choice('sa') for _ in range(n))
+    gate = [rnd.random() < 0.3 for _ in range(n)]
+    gates = ''.join('o' if g else 'c' for g in gate)
+    en = [False] * n; per = [True] * n; paused = [False] * n
+    free = lambda c: en[c] and per[c] and not paused[c] and gate[c]
+    steps = []
+    for _ in range(rnd.randint(4, 11)):
+        for _try in range(20):
+            c = rnd.randrange(n)
+            op = rnd.choice(('force', 'force', 'force', 'enable', 'disable', 'close', 'open', 'pause', 'resume', 'release', 'release', 'hold', 'resched'))
+            if op == 'enable' and maxc < n: continue
+            old = (en[c], per[c], paused[c], gate[c])
+            if op == 'enable': en[c] = True
+            elif op == 'disable': en[c] = False
+            elif op == 'close': per[c] = False
+            elif op == 'open': per[c] = True
+            elif op == 'pause': paused[c] = True
+            elif op == 'resume': paused[c] = False
+            elif op == 'release': gate[c] = True
+            elif op == 'hold': gate[c] = False
+            if free(c):
+                en[c], per[c], paused[c], gate[c] = old
+                continue
+            steps.append((op, c))
+            break
+    return tl_script(kinds, gates, maxc, rnd.choice((60, 80, 100)), steps, 'tl-random')
+
+
+def tl_cases(rnd, nrand):
+    cases = [tl_script(k, g, m, rnd.choice((60, 80, 100)), st, 'tl-template') for (k, g, m, st) in TL_TEMPLATES]
+    cases += [tl_random(rnd) for _ in range(nrand)]
+    return cases
+
+
 def quiet_case(rnd, variant, maxc=1, dur=7000):
     """no storm: the slot holder is paused (1) / deleted (2) mid-check, the completion that frees the slot notifies nobody,
     other checkables are due - the lost-wake-up scenario; found by the head-stays-due-with-a-free-slot criterion"""
@@ -127,7 +221,7 @@ def quiet_case(rnd, variant, maxc=1, dur=7000):
     return {'lines': [line], 'tags': {'family': 'run-quiet', 'n': 4, 'max': maxc}}
 
 
-def run_case(rnd, n, maxc, dur, rate=None, par=4, tail=2500):
+def run_case(rnd, n, maxc, dur, rate=None, par=4, tail=2500, asyn=None):
     tp = rnd.choice((4, 8, 16))
     imin = rnd.choice((50, 100)) if n <= 80 else 200
     imax = 400
@@ -140,42 +234,51 @@ def run_case(rnd, n, maxc, dur, rate=None, par=4, tail=2500):
     cap = 0.25 * min(maxc, tp)
     slow = int(max(0, min(30, 100 * cap * iavg / (n * davg))))
     rate = rate or rnd.choice((100, 200, 400))
-    line = 'sch_run seed=%d n=%d max=%d dur=%d tp=%d imin=%d imax=%d slow=%d thr=%d rate=%d dlo=%d dhi=%d slack=2500 tail=%d par=%d' % (
-        rnd.randint(1, 10 ** 6), n, maxc, dur, tp, imin, imax, slow, rnd.choice((5, 10, 20)), rate, dlo, dhi, tail, par)
-    return {'lines': [line], 'tags': {'family': 'run', 'n': n, 'max': maxc}}
+    if asyn is None:
+        asyn = rnd.choice((0, 30, 30, 60))
+    line = 'sch_run seed=%d n=%d max=%d dur=%d tp=%d imin=%d imax=%d slow=%d thr=%d rate=%d dlo=%d dhi=%d slack=2500 tail=%d par=%d async=%d' % (
+        rnd.randint(1, 10 ** 6), n, maxc, dur, tp, imin, imax, slow, rnd.choice((5, 10, 20)), rate, dlo, dhi, tail, par, asyn)
+    return {'lines': [line], 'tags': {'family': 'run', 'n': n, 'max': maxc, 'async': asyn}}
 
 
 def generate(seed, tier):
     rnd = random.Random(seed)
     cases = []
+    if tier == 'search':
+        # extended search after a broken proof/correspondence: small and bounded (the quick tier must stay below two minutes
+        # also when something broke): the deterministic families and the timelines find what they can find at once
+        cases += tl_cases(rnd, 10)
+        cases += exec_cases(rnd, 20)
+        cases += pcr_cases(rnd, 10)[-40:]
+        for (n, m) in ((8, 4), (20, 8)):
+            cases.append(run_case(rnd, n, m, 3000, par=5, tail=1500, asyn=60))
+        return cases
     if tier == 'quick':
         shapes = [(5, 1), (8, 2), (20, 1), (20, 4), (40, 8), (60, 2), (100, 8), (150, 64), (300, 8), (12, 64)]
         dur = 6000
         nunc, k = 20, 60
-    elif tier == 'search':
-        shapes = [(rnd.choice((5, 10, 20, 40, 80)), rnd.choice((1, 2, 4, 8))) for _ in range(12)]
-        dur = 4000
-        nunc, k = 10, 60
     else:
         shapes = []
         for rep in range(3):
             shapes += [(5, 1), (8, 2), (10, 1), (20, 1), (20, 4), (40, 8), (60, 2), (100, 8), (150, 64), (200, 8), (300, 8), (300, 64)]
         dur = 30000
         nunc, k = 200, 100
-    for (n, m) in shapes:
-        cases.append(run_case(rnd, n, m, dur, par=5 if tier == 'quick' else 4))
+    for i, (n, m) in enumerate(shapes):
+        # every second shape with max >= 4 is guaranteed to have asynchronous commands, some slower than their interval
+        cases.append(run_case(rnd, n, m, dur, par=5 if tier == 'quick' else 4, asyn=(60 if (m >= 4 and i % 2 == 1) else None)))
     for _ in range(nunc):
         cases.append(unc_case(rnd, k))
     for v in (1, 2):
-        for _ in range({'quick': 1, 'search': 1}.get(tier, 3)):
+        for _ in range({'quick': 1}.get(tier, 3)):
             cases.insert(0, quiet_case(rnd, v))
-    cases += pcr_cases(rnd, {'quick': 150, 'search': 100}.get(tier, 2000))
-    cases += exec_cases(rnd, {'quick': 150, 'search': 100}.get(tier, 2000))
+    cases += tl_cases(rnd, {'quick': 26}.get(tier, 300))
+    cases += pcr_cases(rnd, {'quick': 150}.get(tier, 2000))
+    cases += exec_cases(rnd, {'quick': 150}.get(tier, 2000))
     return cases
 
 
 def canon(lines):
-    return [l for l in lines if l.startswith('unc ') or l.startswith('pcr ') or l.startswith('exec ') or l.startswith('fin ') or l.startswith('CRASH') or l.startswith('HANG') or l.startswith('HARNESS') or l.startswith('NOT-RUN')]
+    return [l for l in lines if l.startswith('unc ') or l.startswith('pcr ') or l.startswith('exec ') or l.startswith('fin ') or l.startswith('tl ') or l.startswith('CRASH') or l.startswith('HANG') or l.startswith('HARNESS') or l.startswith('NOT-RUN')]
 
 
 def nontrivial(case, impl_lines):
@@ -183,6 +286,8 @@ def nontrivial(case, impl_lines):
         return True
     if case['lines'][0].startswith('sch_cnew'):
         return len(case['lines']) >= 2
+    if case['lines'][0].startswith('sch_tl_new'):
+        return len(case['lines']) >= 3 and any(l.startswith('tl end ') for l in impl_lines)
     s = sum(1 for l in impl_lines if l.startswith('S '))
     p = sum(1 for l in impl_lines if l.startswith('P '))
     return s >= 50 and p >= 100
@@ -190,6 +295,22 @@ def nontrivial(case, impl_lines):
 
 def classify(case, detail, impl_lines):
     w = detail.split()[0] if detail else ''
+    try:
+        # diagnosis aid for timing-dependent hits (the confirming re-run of the runner may not hit again and then the
+        # replay file has no detail): keep the original detail and the trace of real-thread cases next to the build
+        import os, time
+        d = os.environ.get('VERIF_BUILD', os.path.join(os.path.dirname(os.path.dirname(os.path.abspath(__file__))), 'build'))
+        with open(os.path.join(d, 'C04_oracle_hits.log'), 'a') as f:
+            f.write('%s | %s | %s\n' % (time.strftime('%Y-%m-%d %H:%M:%S'), ' ; '.join(case['lines'][:3]), detail))
+        if case['lines'][0].startswith('sch_run') and not os.path.exists(os.path.join(d, 'C04_last_hit_trace.txt.keep')):
+            with open(os.path.join(d, 'C04_last_hit_trace.txt'), 'w') as f:
+                f.write(detail + '\n' + '\n'.join(case['lines']) + '\n' + '\n'.join(impl_lines))
+    except Exception:
+        pass
+    if w == 'single-flight' and 'sch_exec' in detail and 'second-start' in detail:
+        return 'single-flight-det'   # deterministic ExecuteCheck case (virtual clock): replay always reproduces
+    if case['lines'][0].startswith('sch_tl_new'):
+        return {'single-flight': 'single-flight-timeline', 'forced': 'forced-timeline', 'concurrency': 'concurrency'}.get(w, 'crash' if w == 'crash' else 'timeline')
     if w == 'single-flight' and 'wedged' in detail:
         return 'wedged-det' if 'sch_exec' in detail else 'wedged'
     if w == 'next-check' and 'after-result' in detail:
@@ -200,7 +321,7 @@ def classify(case, detail, impl_lines):
 
 
 def keep_line(l):
-    return l.startswith('sch_run') or l.startswith('sch_cnew')
+    return l.startswith('sch_run') or l.startswith('sch_cnew') or l.startswith('sch_tl_new') or l.startswith('sch_tl_end')
 
 
 def extra_stats(cases, impl):
@@ -214,6 +335,12 @@ def extra_stats(cases, impl):
             continue
         if c['lines'][0].startswith('sch_unc'):
             st['unc_lines'] += sum(1 for l in ls if l.startswith('unc '))
+            continue
+        if c['lines'][0].startswith('sch_tl_new'):
+            st['timeline_steps'] = st.get('timeline_steps', 0) + sum(1 for l in ls if l.startswith('tl ') and not l.startswith('tl end'))
+            st['timeline_unstable'] = st.get('timeline_unstable', 0) + sum(1 for l in ls if ' UNSTABLE ' in l)
+            st['timeline_executions'] = st.get('timeline_executions', 0) + sum(1 for l in ls if l.startswith('tlev S '))
+            st['timeline_forced_clears'] = st.get('timeline_forced_clears', 0) + sum(1 for l in ls if l.startswith('tlev C '))
             continue
         s = p = nrec = w = wl = f = 0
         hic = 0
@@ -235,6 +362,12 @@ def extra_stats(cases, impl):
             if k == 'Q ':
                 for t in l.split():
                     if t.startswith('hiccup='): hic = int(t[7:])
+            if l.startswith('cfg '):
+                for t in l.split():
+                    if t.startswith('async='): st['async_checkables'] = st.get('async_checkables', 0) + int(t[6:])
+                    if t.startswith('asynclong='): st['async_slower_than_interval'] = st.get('async_slower_than_interval', 0) + int(t[10:])
+            if k == 'C ': st['force_clears'] = st.get('force_clears', 0) + 1
+            if k == 'X ': st['executecheck_entries'] = st.get('executecheck_entries', 0) + 1
         st['check_executions'] += s; st['snapshots'] += p; st['next_check_records'] += nrec
         st['liveness_windows'] += w; st['liveness_windows_longer_than_bound'] += wl; st['forced_requests'] += f
         st['max_hiccup_us'] = max(st['max_hiccup_us'], hic)
